@@ -44,14 +44,14 @@ func (check) Cases(tier string) int {
 const typeGroup = 4
 
 func (check) Rule() string {
-	return "one (type, pre-fill, configuration) triple per case. Type: derived from idx/4 (4 consecutive cases share it); 6 in 8 generated with reflect.StructOf (3-8 top-level fields, nesting depth <= 2; kinds bool, int/8/16/32/64, uint/8/16/32/64, float32/64, string, time.Duration, pointers to those, nested structs by value / by pointer / inline (inline, squash), []T and [N]T of primitives, [N]T (N <= 3) of structs (generated ones of primitives, or LibPlain with its unexported, ignored and embedded fields), of map[string]T and of []T, []struct, []*struct, map[string]T, map[string]*struct, map[string]struct; *ucfg.Config fields (pre-filled from a random object or list tree over a 4-key pool, or nil), config tags with and without a name (half of the names lower-case ASCII, the others with leading / inner / only upper-case letters, with _ and -, with lower- and upper-case non-ASCII letters, with letters that have no case; Go field names F<n>, MaxF<n>, F\u00dc<n>, F_x<n>), ignore, merge/replace/append/prepend on lists, maps (1 in 3) and *Config fields and -- 2 in 5 -- merge/replace/append/prepend on struct-typed fields (by value, by pointer, inline; merge twice as often as each other option, because it only shows against an outer policy), validate tags min/max/positive/nonzero on fields that exist before Unpack; the hand-written LibConn, LibLimits, LibPlain (unexported fields, an embedded unexported struct, ignored fields, InitDefaults unconditional / conditional / touching an unexported field, Validate method) and the named primitives LibPort (constant InitDefaults), LibCondPort (conditional), LibNoopInt, LibNoopStr (InitDefaults doing nothing), the named list LibList and the named array LibArr (with a no-op InitDefaults), regexp.Regexp by value and by pointer, inline structs by pointer (nil or pre-filled), and fields no configuration mentions -- an interface type listing InitDefaults (nil, or holding a pointer whose InitDefaults changes nothing), ucfg.Config by value (zero or filled), the next pointer of the self-referential LibRing (nil, a chain, the node itself, a ring of two) -- as ordinary fields by value and by pointer; the self-unpacking LibSelf (Unpack(*Config), rejects lo > hi itself after having stored), LibSelfV (Unpack(*Config), Validate method rejects), LibSelfAny (Unpack(interface{})) likewise; half of the generated types carry a second tag set under the key alt on 4 fields in 5: other name, ignore flag and merge policy drawn independently, the hand-written types carry a few alt tags too), 1 in 8 the hand-written LibTop, 1 in 8 one of the three self-unpacking types as the top-level target, 1 in 64 LibRing (1 in 3 of those with the target itself as its next node). Pre-fill: every field non-zero w.p. 2/3 (nil and empty slices/maps, nil pointers otherwise; validated fields always valid). Configuration: nested map[string]interface{} through NewFrom(PathSep(\".\")), every field path mentioned w.p. 1/2 (1 in 16 of those with an explicit null), numbers as int/int64/uint64/float64/decimal string, durations as string/seconds, ignored and unexported names mentioned w.p. 1/3 with arbitrary data, map settings over a 5-key pool shared with the pre-fill, *Config settings as object / list trees of the shape the field already holds over the key pool of the pre-fill (depth <= 3, primitives, lists of primitives, lists of objects). Every array element is pre-filled on its own and its setting mentions a part of it (a subset of the fields / keys, a list of another length). Success half: Unpack into a deep copy under each of none / AppendValues / PrependValues / ReplaceValues / ReplaceArrValues with the default struct tag; the same type is also unpacked under StructTag(alt) with a configuration drawn from the alt reading of the type (once at a random place among those five calls, the front included, once after them) and then under the default tag again; every result is compared field-path-wise with the model of the tag set in use. A deviation is re-run on a twin type (the same struct tags plus one meaningless key, values converted) to tell dependence on earlier calls from a wrong result. Failure half (under one of the five options and -- 1 in 3 -- under StructTag(alt), drawn per case): for every configurable field position in declaration order (nested, inline and pointee positions included) one fault at a time (up to two different ones per position: unparsable string, overflow, negative into unsigned, bool/object/list into primitive, string into struct/map, primitive into *Config, wrong array length, faulty list element / struct-list element / map value / element of a composite array (the elements before it are merged first), failing validate tag, failing Validate method) is grafted onto the configuration and the struct passed in is compared with its snapshot. Plus per case a top-level []int / []string target and a top-level map[string]int target under the drawn option. Non-trivial = the type has >= 3 configurable leaf fields, the configuration mentions >= 1 and leaves out >= 1 of them; distinct = distinct (type, pre-fill, configuration, drawn option)."
+	return "one (type, pre-fill, configuration) triple per case. Type: derived from idx/4 (4 consecutive cases share it); 6 in 8 generated with reflect.StructOf (3-8 top-level fields, nesting depth <= 2; kinds bool, int/8/16/32/64, uint/8/16/32/64, float32/64, string, time.Duration, pointers to those, nested structs by value / by pointer / inline (inline, squash), []T and [N]T of primitives, [N]T (N <= 3) of structs (generated ones of primitives, or LibPlain with its unexported, ignored and embedded fields), of map[string]T and of []T, []struct, []*struct, map[string]T, map[string]*struct, map[string]struct; *ucfg.Config fields (pre-filled from a random object or list tree over a 4-key pool, or nil), config tags with and without a name (half of the names lower-case ASCII, the others with leading / inner / only upper-case letters, with _ and -, with lower- and upper-case non-ASCII letters, with letters that have no case; Go field names F<n>, MaxF<n>, F\u00dc<n>, F_x<n>), ignore, merge/replace/append/prepend on lists, maps (1 in 3) and *Config fields and -- 2 in 5 -- merge/replace/append/prepend on struct-typed fields (by value, by pointer, inline; merge twice as often as each other option, because it only shows against an outer policy), validate tags min/max/positive/nonzero on fields that exist before Unpack; the hand-written LibConn, LibLimits, LibPlain (unexported fields, an embedded unexported struct, ignored fields, InitDefaults unconditional / conditional / touching an unexported field, Validate method) and the named primitives LibPort (constant InitDefaults), LibCondPort (conditional), LibNoopInt, LibNoopStr (InitDefaults doing nothing), the named list LibList and the named array LibArr (with a no-op InitDefaults), the named maps LibMap (no-op InitDefaults) and LibDefMap (InitDefaults sets one entry outside the key pool) in 1 of 4 map-of-primitive fields, regexp.Regexp by value and by pointer, inline structs by pointer (nil or pre-filled; half of their struct types start with a struct inlined in turn, by value or by pointer, followed by ordinary fields), and fields no configuration mentions -- an interface type listing InitDefaults (nil, or holding a pointer whose InitDefaults changes nothing), ucfg.Config by value (zero or filled), the next pointer of the self-referential LibRing (nil, a chain, the node itself, a ring of two) -- as ordinary fields by value and by pointer; the self-unpacking LibSelf (Unpack(*Config), rejects lo > hi itself after having stored), LibSelfV (Unpack(*Config), Validate method rejects), LibSelfAny (Unpack(interface{})) likewise; half of the generated types carry a second tag set under the key alt on 4 fields in 5: other name, ignore flag and merge policy drawn independently, the hand-written types carry a few alt tags too), 1 in 8 the hand-written LibTop, 1 in 8 one of the three self-unpacking types as the top-level target, 1 in 64 LibRing (1 in 3 of those with the target itself as its next node). Pre-fill: every field non-zero w.p. 2/3 (nil and empty slices/maps, nil pointers otherwise; validated fields always valid). Configuration: nested map[string]interface{} through NewFrom(PathSep(\".\")), every field path mentioned w.p. 1/2 (1 in 16 of those with an explicit null), numbers as int/int64/uint64/float64/decimal string, durations as string/seconds, ignored and unexported names mentioned w.p. 1/3 with arbitrary data, map settings over a 5-key pool shared with the pre-fill, *Config settings as object / list trees of the shape the field already holds over the key pool of the pre-fill (depth <= 3, primitives, lists of primitives, lists of objects). Every array element is pre-filled on its own and its setting mentions a part of it (a subset of the fields / keys, a list of another length). Success half: Unpack into a deep copy under each of none / AppendValues / PrependValues / ReplaceValues / ReplaceArrValues with the default struct tag; the same type is also unpacked under StructTag(alt) with a configuration drawn from the alt reading of the type (once at a random place among those five calls, the front included, once after them) and then under the default tag again; every result is compared field-path-wise with the model of the tag set in use. A deviation is re-run on a twin type (the same struct tags plus one meaningless key, values converted) to tell dependence on earlier calls from a wrong result. Failure half (under one of the five options and -- 1 in 3 -- under StructTag(alt), drawn per case): for every configurable field position in declaration order (nested, inline and pointee positions included) one fault at a time (up to two different ones per position: unparsable string, overflow, negative into unsigned, bool/object/list into primitive, string into struct/map, primitive into *Config, wrong array length, faulty list element / struct-list element / map value / element of a composite array (the elements before it are merged first), failing validate tag, failing Validate method) is grafted onto the configuration and the struct passed in is compared with its snapshot. Plus per case a top-level []int / []string target and a top-level map[string]int target under the drawn option. Non-trivial = the type has >= 3 configurable leaf fields, the configuration mentions >= 1 and leaves out >= 1 of them; distinct = distinct (type, pre-fill, configuration, drawn option)."
 }
 
 func (check) Assumptions() []string {
 	return []string{
 		"active policy = the field's own tag option (merge = index-wise), else the tag option of the nearest enclosing struct-typed field (doc comment of Unpack: the tag options overwrite the global strategy 'for all sub-fields'; merge is taken to be a tag option like the other three: below a field tagged merge lists are merged index-wise again whatever the global option says), else the global option, else index-wise; ReplaceArrValues is modelled as replace for lists (its own doc comment says it applies to unpacking)",
 		"a *Config field the configuration mentions holds afterwards what the merge model of C01 (internal/model.Merge: union of dictionaries, lists per policy, replace drops the old dictionary) gives for (tree it held, setting, active policy), a nil field the setting itself; contents are observed through Unpack into a map and into a slice and compared in canonical form; the setting has the shape (object / list) of what the field holds; whether a mentioned *Config field keeps its identity is not compared, an unmentioned one must keep identity and contents",
-		"InitDefaults is modelled only where the doc comment states it: the top-level struct, struct-typed fields by value (also without a setting), pointer fields only when the configuration has a setting for them, primitives with InitDefaults; it runs on top of the value the field holds ('as it was or as InitDefaults set it': a field InitDefaults does not assign stays as it was, for primitives like for structs and maps), never for lists and arrays (doc comment: not supported on them); all InitDefaults of the hand-written types are idempotent, so the number of calls is not pinned; whether InitDefaults of a value held in an interface field without a setting is called is not pinned (both outcomes satisfy 'as it was or as InitDefaults set it'): those values are ones InitDefaults does not change. Likewise a map type whose InitDefaults adds entries is not generated: whether a freshly made map carries them ('as InitDefaults set it') or not ('as it was') is the same disjunction",
+		"InitDefaults is modelled only where the doc comment states it: the top-level struct, struct-typed fields by value (also without a setting), pointer fields only when the configuration has a setting for them, primitives with InitDefaults; it runs on top of the value the field holds ('as it was or as InitDefaults set it': a field InitDefaults does not assign stays as it was, for primitives like for structs and maps), never for lists and arrays (doc comment: not supported on them); all InitDefaults of the hand-written types are idempotent, so the number of calls is not pinned; whether InitDefaults of a value held in an interface field without a setting is called is not pinned (both outcomes satisfy 'as it was or as InitDefaults set it'): those values are ones InitDefaults does not change. Map types with InitDefaults are only generated as struct fields held by value, where the defaults are applied to the map the field holds (or the new one) before the settings, also without a setting (a nil map may become an empty one: compared without regard to nil); behind pointers and as elements they are not generated: whether a freshly made map carries the defaults ('as InitDefaults set it') or not ('as it was') is the same disjunction there",
 		"fields of kinds the configurations of this check never mention (interface types with methods, ucfg.Config by value, pointers of a type to itself) have to come out of every Unpack as they went in; a pointer into a ring is compared by identity only, because the ring may contain the target itself; a pre-filled value that contains itself is a pre-filled value like any other ('for all pre-filled values'): Unpack has to terminate on it",
 		"the name in a struct tag is the name of the setting exactly as written (only a field without a name in its tag is known by its lower-cased Go name); whether a setting spelled in another case is found as well is not generated",
 		"maps follow the active policy like lists do ('merging lists and maps according to the active policy'; ReplaceValues: 'all merging and unpacking operations ... replace old dictionaries and arrays'): under replace -- global, tag or inherited -- a mentioned map holds the new entries alone, under every other policy (arr-replace included: it concerns lists) the entries are merged key by key; struct-typed fields are not dictionaries in this sense, their unmentioned fields always stay",
@@ -949,6 +949,12 @@ func (rn *runner) listMonitors(st *stype, c *cval, pre reflect.Value, pc polCtx)
 			case filled == "filled" && implementsPtr(f.typ, tIniter) && f.kind != kStruct:
 				rn.res.Ev("absent_filled_fields_of_types_with_initdefaults_per_unpack", 1)
 				rn.res.SetAdd("absent_filled_field_of_type_with_initdefaults", f.shape()+":"+f.typ.String())
+				if f.kind == kMapPrim {
+					rn.res.Ev("absent_filled_maps_of_types_with_initdefaults_per_unpack", 1)
+					if f.policy(pc).pol == "replace" {
+						rn.res.Ev("absent_filled_maps_of_types_with_initdefaults_under_replace_per_unpack", 1)
+					}
+				}
 			case f.kind == kPrim && f.prim == tRegexp && filled == "filled":
 				rn.res.Ev("absent_filled_regexp_by_value_per_unpack", 1)
 			case f.kind == kPtrStruct && f.inline:
@@ -973,6 +979,9 @@ func (rn *runner) listMonitors(st *stype, c *cval, pre reflect.Value, pc polCtx)
 			if f.kind == kPtrStruct && f.inline {
 				rn.res.SetAdd("inline_pointer", "mentioned:"+filled)
 				rn.res.Ev("inline_pointer_structs_mentioned_per_unpack", 1)
+				if filled == "zero" && onlyAfterNestedInline(f.sub, cv) {
+					rn.res.Ev("nil_inline_pointers_mentioned_only_after_a_nested_inline_struct_per_unpack", 1)
+				}
 			}
 			rn.listMonitors(f.sub, cv, deref(fpre), fpc.below())
 		case kSlicePrim, kSliceStruct:
